@@ -545,6 +545,9 @@ class System:
         self.cs = CS(tuple(self.eng), self.roots, self.storage, sleep=None, root_oids=root_oids,
                      state_class=TS, smgr_class=TM, **kw)
         self.cs.aging = self.aging
+        if self.smart and getattr(self, "auto_names", None):
+            auto = [NAMES[c] for c in self.auto_names]
+            self.cs.register_auto_sync_callback(lambda path: path.rstrip("/").split("/")[-1] in auto)
         self.stopped = False
         return self.cs
 
@@ -762,6 +765,55 @@ class System:
             self.clk.advance(max(self.aging, 1.0) * 3)
         self.rec.ev("AfterQuietEnd", post=self.trees(), busy=1 if self.busy() else 0)
 
+    # ---- on-demand API (C20) -------------------------------------------------------------------------------------
+    def _app_call(self, name, fn):
+        """A call of the application into the on-demand API: recorded like a service step (it may sync entries itself)."""
+        from cloudsync import exceptions as ex
+        from cloudsync.runnable import _BackoffError
+        self.rec.step += 1
+        self.rec.ev("StepBegin", mgr=name, step=self.rec.step)
+        self.cur_mgr = name
+        ok = 1
+        try:
+            fn()
+        except (ex.CloudException, _BackoffError):
+            ok = 0
+        finally:
+            self.cur_mgr = ""
+        self.pump_notifications()
+        self.rec.ev("StepEnd", mgr=name, step=self.rec.step, out="ok", post=self.trees())
+        return ok
+
+    def smart_request(self, how, path):
+        rp = self.names.decode(1, path)
+        if how == "oid":
+            self.in_user = True
+            try:
+                info = self.eng[1].info_path(rp)
+            finally:
+                self.in_user = False
+            ok = self._app_call("Req", lambda: self.cs.smart_sync_oid(info.oid)) if info else 0
+        else:
+            ok = self._app_call("Req", lambda: self.cs.smart_sync_path(rp, 1))
+        self.rec.ev("Req", path=path, how=how, ok=ok, post=self.trees())
+
+    def smart_unrequest(self, path):
+        rp = self.names.decode(1, path)
+        self.rec.ev("Unreq", path=path)
+        self._app_call("Unreq", lambda: self.cs.smart_unsync_path(rp, 1))
+        self.rec.ev("UnreqEnd", path=path, post=self.trees())
+
+    def smart_list(self, path):
+        lp = self.names.decode(0, path)
+        items = []
+        self.in_user = True
+        try:
+            for si in self.cs.smart_listdir_path(lp):
+                items.append([self.names.code(0, si.name, False), 1 if si.is_synced else 0, 1 if si.otype.value == "dir" else 2])
+        finally:
+            self.in_user = False
+        self.rec.ev("Listing", dir=path, items=sorted(items), post=self.trees())
+
     # ---- base tree ----------------------------------------------------------------------------------------------
     def build_base(self, base, side=0):
         """base: list of [path codes, cell]; created by a user on `side` before the engine exists, then synced."""
@@ -789,6 +841,8 @@ class System:
         self.rec.step = 0
         t = self.trees()
         vis = [[e for e in x if not (self.decline and e[0][:len(self.decline)] == self.decline)] for x in t]
+        if self.smart:              # on-demand mode: only folders are mirrored until files are requested
+            vis = [[e for e in x if e[1] == DIR] for x in vis]
         if not ok or vis[0] != vis[1]:
             raise MachineryError("base tree did not synchronise: %r" % (t,))
         self.rec.ev("Base", post=t, flavor=self.flavor, aging_ms=int(self.aging * 1000))
@@ -885,6 +939,12 @@ class System:
             self.rec.ev("Corrupt", side=tok[1], path=tok[2])
         elif k == "AQ":
             self.after_quiet()
+        elif k == "Req":
+            self.smart_request(tok[1], tok[2])
+        elif k == "Unreq":
+            self.smart_unrequest(tok[1])
+        elif k == "List":
+            self.smart_list(tok[1])
         else:
             raise MachineryError("unknown token %r" % (tok,))
 
